@@ -33,7 +33,7 @@ func checkC13(c *Ctx) {
 	if pl == nil {
 		return
 	}
-	P := c.P
+	_ = c.P
 	fn := pl.handle
 	// the read
 	var read *ssa.Call
@@ -151,86 +151,7 @@ func checkC13(c *Ctx) {
 	// error is neither (the other-error return dominates that case) — i.e. the other-error test comes first
 	// (structure: the classification block dominates both)
 	// ---- R2 forward once
-	buf := root(read.Call.Args[1])
-	oneByte := false
-	if isFreshSlice(buf) {
-		if k, ok := NewAff(P).LenOf(buf).IsConst(); ok && k >= 1 && k < 16 {
-			oneByte = true
-		}
-	}
-	var sends []*ssa.Send
-	eachInstr(fn, func(ins ssa.Instruction) {
-		if sd, ok := ins.(*ssa.Send); ok {
-			sends = append(sends, sd)
-		}
-	})
-	isSend := func(i ssa.Instruction) bool {
-		for _, s := range sends {
-			if ssa.Instruction(s) == i {
-				return true
-			}
-		}
-		return false
-	}
-	isRead := func(i ssa.Instruction) bool { return i == ssa.Instruction(read) }
-	prune := func(a, b *ssa.BasicBlock) bool {
-		ifi, ok := lastInstr(a).(*ssa.If)
-		if !ok || len(a.Succs) != 2 || a.Succs[0] == a.Succs[1] {
-			return true
-		}
-		bo, ok := ifi.Cond.(*ssa.BinOp)
-		if !ok {
-			return true
-		}
-		taken := b == a.Succs[0]
-		// n <= 0: nothing to forward
-		if bo.X == nVal {
-			if k, ok := constInt(bo.Y); ok && k == 0 && ((bo.Op == token.GTR && !taken) || (bo.Op == token.LEQ && taken) || (bo.Op == token.EQL && taken)) {
-				return false
-			}
-		}
-		// err != nil: with a short destination bufio returns no data together with an error
-		if oneByte && (bo.X == errVal || bo.Y == errVal) && (isNilConst(bo.X) || isNilConst(bo.Y)) {
-			if (bo.Op == token.NEQ && taken) || (bo.Op == token.EQL && !taken) {
-				return false
-			}
-		}
-		return true
-	}
-	until := func(i ssa.Instruction) bool { return isRead(i) || isReturn(i) }
-	if path, _ := mustPass(read, isSend, until, prune); path != nil {
-		msg := "a byte that was read can reach the next read or a return without being sent to the framer"
-		if !oneByte {
-			msg += " (the read buffer is not a fresh slice shorter than bufio's minimum buffer, so a read may return data together with EOF and the error branch skips the data)"
-		}
-		c.Fail("C13-R2", "Handle:forward-every-byte", read.Pos(), "refuted", msg, P.blockPath(path)...)
-	} else {
-		c.OK("C13-R2", "Handle:forward-every-byte", read.Pos(), "every read with n>0 is followed by the send before the next read/return")
-	}
-	if path, _ := atMostOnce(fn, isSend, isRead); path != nil {
-		c.Fail("C13-R2", "Handle:forward-once", read.Pos(), "refuted", "a byte can be sent twice", P.blockPath(path)...)
-	} else {
-		c.OK("C13-R2", "Handle:forward-once", read.Pos(), "no second send without a new read")
-	}
-	c.Check(oneByte, "C13-R2", "Handle:short-read-buffer", read.Pos(), "the read destination is a fresh slice of constant length < 16 (bufio then never returns data with an error)",
-		"the read destination is not a fresh short slice: bufio.Reader.Read may return the last bytes together with io.EOF, and Handle tests the error first")
-	for _, sd := range sends {
-		okv := false
-		if ld, ok := sd.X.(*ssa.UnOp); ok && ld.Op == token.MUL {
-			if ia, ok := ld.X.(*ssa.IndexAddr); ok && root(ia.X) == buf {
-				if k, ok := constInt(ia.Index); ok && k == 0 {
-					okv = true
-				}
-			}
-		}
-		_, isMk := root(sd.Chan).(*ssa.MakeChan)
-		c.Check(okv && isMk, "C13-R2", "Handle:send-operand", sd.Pos(), "sends buf[0] of the buffer just read on the byte channel", "the value sent is not the byte just read, or goes to another channel")
-		c.Check(instrDominates(read, sd), "C13-R2", "Handle:send-after-read", sd.Pos(), "the send follows the read", "the send is not dominated by the read")
-	}
-	// fresh buffer per iteration
-	if bi, ok := sliceBase(buf).(ssa.Instruction); ok {
-		c.Check(blockInLoop(bi.Block()), "C13-R2", "Handle:fresh-buffer", read.Pos(), "a new buffer is allocated for every read", "the read buffer is shared across iterations")
-	}
+	ruleForwardOnce(c, pl, "C13-R2", read, nVal, errVal)
 	// ---- R3 EOF clock
 	var clock *ssa.Phi
 	eachInstr(fn, func(ins ssa.Instruction) {
@@ -294,4 +215,112 @@ func checkC13(c *Ctx) {
 	c.MinInstances("C13-R2", 6)
 	c.MinInstances("C13-R3", 4)
 	c.MinInstances("C13-R4", 8)
+}
+
+// handleRead finds the reader.Read call of Handle and its results.
+func handleRead(fn *ssa.Function) (read *ssa.Call, nVal, errVal ssa.Value) {
+	eachInstr(fn, func(ins ssa.Instruction) {
+		if call, ok := ins.(*ssa.Call); ok && call.Call.StaticCallee() != nil && calleeFullName(call.Call.StaticCallee()) == "(*bufio.Reader).Read" {
+			read = call
+		}
+	})
+	if read == nil {
+		return
+	}
+	for _, r := range referrers(read) {
+		if ex, ok := r.(*ssa.Extract); ok {
+			if ex.Index == 0 {
+				nVal = ex
+			} else {
+				errVal = ex
+			}
+		}
+	}
+	return
+}
+
+// ruleForwardOnce (C13-R2, C09-R8): every byte read by Handle is sent to the framer exactly once.
+func ruleForwardOnce(c *Ctx, pl *pipeline, rule string, read *ssa.Call, nVal, errVal ssa.Value) {
+	P := c.P
+	fn := pl.handle
+	buf := root(read.Call.Args[1])
+	oneByte := false
+	if isFreshSlice(buf) {
+		if k, ok := NewAff(P).LenOf(buf).IsConst(); ok && k >= 1 && k < 16 {
+			oneByte = true
+		}
+	}
+	var sends []*ssa.Send
+	eachInstr(fn, func(ins ssa.Instruction) {
+		if sd, ok := ins.(*ssa.Send); ok {
+			sends = append(sends, sd)
+		}
+	})
+	isSend := func(i ssa.Instruction) bool {
+		for _, s := range sends {
+			if ssa.Instruction(s) == i {
+				return true
+			}
+		}
+		return false
+	}
+	isRead := func(i ssa.Instruction) bool { return i == ssa.Instruction(read) }
+	prune := func(a, b *ssa.BasicBlock) bool {
+		ifi, ok := lastInstr(a).(*ssa.If)
+		if !ok || len(a.Succs) != 2 || a.Succs[0] == a.Succs[1] {
+			return true
+		}
+		bo, ok := ifi.Cond.(*ssa.BinOp)
+		if !ok {
+			return true
+		}
+		taken := b == a.Succs[0]
+		// n <= 0: nothing to forward
+		if bo.X == nVal {
+			if k, ok := constInt(bo.Y); ok && k == 0 && ((bo.Op == token.GTR && !taken) || (bo.Op == token.LEQ && taken) || (bo.Op == token.EQL && taken)) {
+				return false
+			}
+		}
+		// err != nil: with a short destination bufio returns no data together with an error
+		if oneByte && (bo.X == errVal || bo.Y == errVal) && (isNilConst(bo.X) || isNilConst(bo.Y)) {
+			if (bo.Op == token.NEQ && taken) || (bo.Op == token.EQL && !taken) {
+				return false
+			}
+		}
+		return true
+	}
+	until := func(i ssa.Instruction) bool { return isRead(i) || isReturn(i) }
+	if path, _ := mustPass(read, isSend, until, prune); path != nil {
+		msg := "a byte that was read can reach the next read or a return without being sent to the framer"
+		if !oneByte {
+			msg += " (the read buffer is not a fresh slice shorter than bufio's minimum buffer, so a read may return data together with EOF and the error branch skips the data)"
+		}
+		c.Fail(rule, "Handle:forward-every-byte", read.Pos(), "refuted", msg, P.blockPath(path)...)
+	} else {
+		c.OK(rule, "Handle:forward-every-byte", read.Pos(), "every read with n>0 is followed by the send before the next read/return")
+	}
+	if path, _ := atMostOnce(fn, isSend, isRead); path != nil {
+		c.Fail(rule, "Handle:forward-once", read.Pos(), "refuted", "a byte can be sent twice", P.blockPath(path)...)
+	} else {
+		c.OK(rule, "Handle:forward-once", read.Pos(), "no second send without a new read")
+	}
+	c.Check(oneByte, rule, "Handle:short-read-buffer", read.Pos(), "the read destination is a fresh slice of constant length < 16 (bufio then never returns data with an error)",
+		"the read destination is not a fresh short slice: bufio.Reader.Read may return the last bytes together with io.EOF, and Handle tests the error first")
+	for _, sd := range sends {
+		okv := false
+		if ld, ok := sd.X.(*ssa.UnOp); ok && ld.Op == token.MUL {
+			if ia, ok := ld.X.(*ssa.IndexAddr); ok && root(ia.X) == buf {
+				if k, ok := constInt(ia.Index); ok && k == 0 {
+					okv = true
+				}
+			}
+		}
+		_, isMk := root(sd.Chan).(*ssa.MakeChan)
+		c.Check(okv && isMk, rule, "Handle:send-operand", sd.Pos(), "sends buf[0] of the buffer just read on the byte channel", "the value sent is not the byte just read, or goes to another channel")
+		c.Check(instrDominates(read, sd), rule, "Handle:send-after-read", sd.Pos(), "the send follows the read", "the send is not dominated by the read")
+	}
+	// fresh buffer per iteration
+	if bi, ok := sliceBase(buf).(ssa.Instruction); ok {
+		c.Check(blockInLoop(bi.Block()), rule, "Handle:fresh-buffer", read.Pos(), "a new buffer is allocated for every read", "the read buffer is shared across iterations")
+	}
 }
